@@ -20,12 +20,23 @@ import (
 // own root; the front end of a case trusts only that root, so one key may serve
 // in several hierarchies but never twice in one.
 
-var kinds = []string{"p256", "p384", "rsa2048", "ed25519"}
+// kinds[4] is reachable only as ik == 4 (see caKey): an RSA issuer whose certificate publishes its
+// key with a valid but non-canonical SubjectPublicKeyInfo (no NULL parameters).
+var kinds = []string{"p256", "p384", "rsa2048", "ed25519", "rsa2048-spki-without-null"}
 
 // caKey is the key of the CA at distance d (1 = direct issuer of the leaf)
 // when the direct issuer has kind index ik: kinds rotate upwards, so the
 // (up to four) CAs of one hierarchy have four different algorithms.
 func caKey(ik, d int) *pki.Key {
+	if ik == 4 {
+		switch d {
+		case 1:
+			return pki.LoadKey("rsa2048-0~nonull")
+		case 2:
+			return pki.LoadKey("rsa2048-1~nonull")
+		}
+		return pki.LoadKey(kinds[(d-3)%2] + "-0")
+	}
 	return pki.LoadKey(kinds[(ik+d-1)%4] + "-0")
 }
 
@@ -395,6 +406,20 @@ func newWorld() *world {
 			add(kCert, w.hier(1, ik, false, false), ik, layout{true, 2, 0, -1}, val)
 			add(kPreDirect, w.hier(1, ik, false, false), ik, l, val)
 			add(kPrePI, w.hier(2, ik, true, true), ik, l, val)
+		}
+	}
+	// issuers whose SubjectPublicKeyInfo is not the canonical encoding of their key: issuer_key_hash
+	// is the hash of the bytes in the issuer certificate
+	for n := 1; n <= 3; n++ {
+		h := w.hier(n, 4, false, false)
+		add(kCert, h, 0, layout{true, 1, 0, -1}, "utc")
+		add(kPreDirect, h, 0, layout{true, 1, 0, 2}, "utc")
+		add(kPreDirect, h, 3, layout{false, 0, 0, 0}, "utc")
+		if n >= 2 {
+			for _, piAKI := range both {
+				add(kPrePI, w.hier(n, 4, true, piAKI), 0, layout{true, 1, 0, 2}, "utc")
+				add(kPrePI, w.hier(n, 4, true, piAKI), 1, layout{false, 3, 0, 0}, "utc")
+			}
 		}
 	}
 	// an ordinary issuing CA that carries an extended key usage extension is not a pre-issuer
